@@ -166,7 +166,7 @@ def run(ctx):
     ctx.samples = [{"request": cases[i][1][:200], "expected": cases[i][2][:200]} for i in (0, 7, len(cases) // 2, len(cases) - 1)]
     ctx.assumptions += ["word counts below 65536 (16-bit field) - instructions beyond are skipped by the generator and excluded by hypothesis",
                         "generator encodes by the SPIR-V rules independently of rspirv and of the Lean model"]
-    return C.finish(ctx, level="proof", checker_cmd="lake build Rspirv.Props.C02 + #print axioms",
+    return C.finish(ctx, level="proof", checker_cmd="lake build Rspirv.Props.C02TypedInst + #print axioms",
                     rule="every core opcode x every quantifier expansion (0..n optionals, variadic 0/1/3) x cycling through every enumerant of every value enum and every single mask bit + random combinations with their parameters, both literal widths for OpConstant/OpSpecConstant/OpSwitch, strings of every length mod 4; distinct non-trivial = distinct instructions",
                     trusted=["hand models Parser.lean / Assemble.lean + differential harness", "translators"])
 
